@@ -82,7 +82,7 @@ var c12Lit = core.Mon(c12, "literal-value", func(w *core.W, c *LitCase) {
 			w.Count("embedded_malformed")
 		}
 		var err error
-		panicked, pv := core.Call(func() { _, err = formula.ParseSourceCode([]byte(src)) })
+		panicked, pv := core.Call(func() { _, err = hostParse([]byte(src), true) })
 		w.Count("malformed_checked")
 		w.Count("malformed:" + why)
 		w.Nontrivial("bad:" + src)
@@ -139,8 +139,8 @@ var c12Lit = core.Mon(c12, "literal-value", func(w *core.W, c *LitCase) {
 	}
 	// the literal as the top-level result of one evaluation, read back in the next (the value must still be the written one)
 	if want.Digits() > 30 || strings.Contains(c.Lit, "_") || w.Counter("wellformed_checked")%16 == 0 {
-		sc1, e1 := formula.ParseSourceCode([]byte("$v = " + c.Lit))
-		sc2, e2 := formula.ParseSourceCode([]byte("[$v, " + c.Lit + "]"))
+		sc1, e1 := hostParse([]byte("$v = " + c.Lit), true)
+		sc2, e2 := hostParse([]byte("[$v, " + c.Lit + "]"), true)
 		if e1 != nil || e2 != nil {
 			return
 		}
@@ -190,7 +190,7 @@ var c12Pair = core.Mon(c12, "literal-sequence", func(w *core.W, c *LitPairCase) 
 		wants = append(wants, d)
 	}
 	src := "[" + strings.Join(c.Lits, c.Sep) + "]"
-	sc, err := formula.ParseSourceCode([]byte(src))
+	sc, err := hostParse([]byte(src), true)
 	if err != nil {
 		w.Violation("literal-sequence", "C12/sequence-rejected", c, "parses", err.Error(), src)
 		return
